@@ -25,7 +25,9 @@ def ref_env():
 def dsl_env(m):
     env = {}
     for k, v in VALS.items():
-        el = m.constant(k); el.equation = v; env[k] = el
+        # d and e are converters (their values are re-assigned after the first evaluation), the others constants
+        el = m.converter(k) if k in ("d", "e") else m.constant(k)
+        el.equation = v; env[k] = el
     # aggregates of an arrayed element: operators (not binary ones) whose text is a bare chain  v0+v1+v2 / v0*v1*v2
     v = m.constant("v"); v.setup_vector(3, [1.5, 4.0, 0.5])
     env.update(dict(vsum=v.arr_sum(), vprod=v.arr_prod()))
@@ -43,7 +45,8 @@ def run(expr):
         return None
     m = Model(starttime=0.0, stoptime=2.0, dt=1.0)
     try:
-        node = eval(expr, {"__builtins__": {}}, dsl_env(m))
+        denv = dsl_env(m)
+        node = eval(expr, {"__builtins__": {}}, denv)
     except Exception as e:
         return None            # the DSL rejects the nesting with an exception: allowed by the property
     if isinstance(node, (int, float, bool)):
@@ -60,6 +63,26 @@ def run(expr):
         ok = False
     if not ok:
         return "%s evaluates to %r with the DSL, %r with ordinary arithmetic" % (expr, got, want)
+    # the operands d and e get other values: the element is still the value of the same expression tree
+    renv = ref_env(); renv.update(d=6.5, e=-2.25)
+    try:
+        want2 = eval(expr, {"__builtins__": {}}, renv)
+    except Exception:
+        return None
+    if isinstance(want2, complex) or (isinstance(want2, float) and (math.isnan(want2) or math.isinf(want2))):
+        return None
+    try:
+        denv["d"].equation = 6.5
+        denv["e"].equation = -2.25
+        got2 = x(1.0)
+    except Exception:
+        return None
+    try:
+        ok = math.isclose(float(got2), float(want2), rel_tol=1e-9, abs_tol=1e-9)
+    except Exception:
+        ok = False
+    if not ok:
+        return "%s evaluates to %r with the DSL after d and e were set to 6.5 and -2.25, %r with ordinary arithmetic" % (expr, got2, want2)
     return None
 '''
 exec(PRELUDE)
